@@ -1,0 +1,121 @@
+//go:build verif
+
+// Verification hooks for property C10 (number-format rendering). Compiled only
+// with `-tags verif`; adds code and changes none.
+
+package excelize
+
+import (
+	"time"
+
+	"github.com/xuri/nfp"
+)
+
+// VerifC10Format exposes the unexported format function.
+func VerifC10Format(value, numFmt string, date1904 bool, cellType CellType, opts *Options) string {
+	return format(value, numFmt, date1904, cellType, opts)
+}
+
+// VerifC10IsNumeric exposes all three results of isNumeric.
+func VerifC10IsNumeric(s string) (bool, int, float64) { return isNumeric(s) }
+
+// VerifC10TimeFromExcelTime exposes timeFromExcelTime.
+func VerifC10TimeFromExcelTime(x float64, date1904 bool) time.Time {
+	return timeFromExcelTime(x, date1904)
+}
+
+// VerifC10PrintCommaSep exposes printCommaSep.
+func VerifC10PrintCommaSep(text string) string { return printCommaSep(text) }
+
+// VerifC10Conf is the per-call state of the numeric path after section
+// selection, getNumberFmtConf and getNumberPartLen (the real functions are
+// called in the order numberHandler calls them).
+type VerifC10Conf struct {
+	Selected                                                     bool
+	SectionIdx                                                   int
+	SectionType                                                  string
+	UsePositive                                                  bool
+	IntHolder, IntPadding, FracHolder, FracPadding, ExpBaseLen   int
+	Percent, IntLen, FracLen                                     int
+	UseCommaSep, UseFraction, UsePointer, UseScientificNotation bool
+}
+
+// VerifC10NumberConf dumps the numberFormat state that numberHandler would
+// compute for the section selected by format's loop.
+func VerifC10NumberConf(value, numFmt string, date1904 bool, cellType CellType) VerifC10Conf {
+	p := nfp.NumberFormatParser()
+	nf := numberFormat{section: p.Parse(numFmt), value: value, date1904: date1904, cellType: cellType}
+	nf.number, nf.valueSectionType = nf.getValueSectionType(value)
+	nf.prepareNumberic(value)
+	var c VerifC10Conf
+	for i, section := range nf.section {
+		nf.sectionIdx = i
+		if section.Type != nf.valueSectionType {
+			continue
+		}
+		c.Selected, c.SectionIdx, c.SectionType, c.UsePositive = true, i, section.Type, nf.usePositive
+		if nf.isNumeric {
+			nf.getNumberFmtConf()
+			c.IntLen, c.FracLen = nf.getNumberPartLen()
+			c.IntHolder, c.IntPadding, c.FracHolder, c.FracPadding, c.ExpBaseLen = nf.intHolder, nf.intPadding, nf.fracHolder, nf.fracPadding, nf.expBaseLen
+			c.Percent, c.UseCommaSep, c.UseFraction, c.UsePointer, c.UseScientificNotation = nf.percent, nf.useCommaSep, nf.useFraction, nf.usePointer, nf.useScientificNotation
+		}
+		break
+	}
+	return c
+}
+
+// VerifC10Locale reports what the date path reads from the locale tables for
+// one language code and one instant: whether the code is supported, the AM/PM
+// pattern, the three month-name forms, the weekday names and the tags.
+type VerifC10Locale struct {
+	OK            bool
+	ApFmt         string
+	Month3        string
+	Month4        string
+	Month5        string
+	WeekdayAbbr   string
+	Weekday       string
+	Tags          []string
+	UseGannen     bool
+	WeekdayTables bool
+}
+
+// VerifC10LocaleInfo looks up localCode exactly as the handlers do.
+func VerifC10LocaleInfo(localCode string, t time.Time) VerifC10Locale {
+	nf := numberFormat{localCode: localCode, t: t}
+	info, ok := getSupportedLanguageInfo(localCode)
+	r := VerifC10Locale{OK: ok, ApFmt: info.apFmt, Tags: info.tags, UseGannen: info.useGannen}
+	r.Month3, r.Month4, r.Month5 = nf.localMonthsName(3), nf.localMonthsName(4), nf.localMonthsName(5)
+	wn, wa := info.weekdayNames, info.weekdayNamesAbbr
+	r.WeekdayTables = len(wn) == 7 && len(wa) == 7
+	if len(wn) != 7 {
+		wn = weekdayNamesEnglish
+	}
+	if len(wa) != 7 {
+		wa = weekdayNamesEnglishAbbr
+	}
+	r.Weekday, r.WeekdayAbbr = wn[t.Weekday()], wa[t.Weekday()]
+	return r
+}
+
+// VerifC10LanguageCodes lists every key of the language tables (decimal ids as
+// upper-case hex, then the string codes), sorted by the caller.
+func VerifC10LanguageCodes() (ids []int, codes []string) {
+	for k := range supportedLanguageInfo {
+		ids = append(ids, k)
+	}
+	for k := range supportedLanguageCodeInfo {
+		codes = append(codes, k)
+	}
+	return
+}
+
+// VerifC10BuiltInNumFmt returns a copy of the built-in id -> code table.
+func VerifC10BuiltInNumFmt() map[int]string {
+	m := map[int]string{}
+	for k, v := range builtInNumFmt {
+		m[k] = v
+	}
+	return m
+}
